@@ -7,23 +7,46 @@ from . import c01, c03
 
 ID = "C02"
 KINDS = {"U": ["weight_triangle", "nearest_decoder_corrects", "ml_is_nearest", "ml_corrects", "ml_corrects_large", "syndrome_decoder_corrects", "syndrome_table_entry", "hamming_inverse_corrects",
-               "bm_reduction (BMProofs.correct_add_of_zero, syndAt_codeword)", "bm_corrects_small"],
+               "bm_reduction (BMProofs.correct_add_of_zero, syndAt_codeword)", "bm_corrects_small",
+               "ReedProofs.reed_corrects (reed_decoder_corrects)"],
          "R": ["syndrome_decoder_instances"],
-         "K": ["C03.instances_ok (distances, shared catalogue)", "C01.instances_ok (null space, right inverse)", "C03.bch_ok", "bm_light_small"]}
+         "K": ["C03.instances_ok (distances, shared catalogue)", "C01.instances_ok (null space, right inverse)", "C03.bch_ok", "bm_light_small", "reed_ok", "reed_instances_in_catalogue"]}
 PARTIAL = ["Berlekamp-Massey: modelled (Kaira/BM.lean: syndromes, tabular BM, Chien-style search) and tied line by line (decoded messages, internals); "
            "proved: the correction depends on the syndromes only, syndromes are additive and vanish on code words of a certified BCH instance, hence "
            "decoding (code word + e) = decoding e on the zero code word for EVERY instance (bm_reduction); full correctness within capability is a "
            "theorem where the kernel can run the decoder on every light pattern (n <= 15, t <= 1: bm_corrects_small); for the larger instances the light "
            "patterns on the zero code word are run through the compiled model and the implementation by the check (exhaustive where <= 700 / 20000 patterns) - "
            "a test of the model lifted by the theorem, not a proof that the BM recursion finds the locator",
-           "Reed majority decoder (RM): no Lean model - exhaustive TEST of the implementation within capability",
            "syndrome-table decoder, Hamming inverse and RM nearest-codeword inverse: tied to executable models by the correspondence; "
            "'nearest' is proved for the ML model only"]
 RULE = ("decode lines: codewords x error patterns of weight <= t (exhaustive when the product <= 2*10^4, sampled otherwise) and arbitrary words "
         "(all 2^n for n <= 12 quick); the model must return the same message incl. tie-breaks; non-trivial = non-zero error pattern")
 ASSUMPTIONS = c01.ASSUMPTIONS + ["torch.argmin returns the first minimal index"]
 
-extract = c03.extract
+def reed_data(ctx=None):
+    """per Reed-Muller instance: generator rows, the published check groups as position masks, t"""
+    from kaira.models.fec.decoders import ReedMullerDecoder
+    out = {}
+    for name, d in c03.data(ctx).items():
+        c = d["c"]
+        if c.family != "reed_muller" or d["n"] > 64:
+            continue
+        dec = ReedMullerDecoder(c.enc)
+        parts = [[sum(1 << int(p) for p in grp) for grp in part.tolist()] for part in dec._reed_partitions]
+        out[name] = dict(n=d["n"], k=d["k"], t=capability(d), G=d["G"], parts=parts)
+    return out
+
+
+def extract(ctx):
+    files = dict(c03.extract(ctx))
+    lst = lambda v: "[" + ", ".join(str(x) for x in v) + "]"
+    rows = []
+    for name, r in reed_data(ctx).items():
+        rows.append('  { name := "%s", n := %d, k := %d, t := %d, G := %s, parts := [%s] }'
+                    % (name, r["n"], r["k"], r["t"], lst(r["G"]), ", ".join(lst(p) for p in r["parts"])))
+    files["C02R"] = ("-- generated from /repo: Reed-Muller generator rows and the check groups get_reed_partitions() publishes for them\n"
+                     "import Kaira.Reed\nopen Kaira.Reed\nnamespace Generated.C02R\ndef instances : List ReedInst := [\n" + ",\n".join(rows) + "]\nend Generated.C02R\n")
+    return files
 bits = c01.bits
 
 
@@ -181,6 +204,16 @@ def corr(ctx):
             if not ctx.thorough and len(cs) > 800:
                 cs = ctx.rng.sample(cs, 800)
             res = _dec(fn, [w for w, _, _ in cs])
+            if kind == "reed" and name in reed_data(ctx):
+                # the Lean model of Reed's decoder (Kaira/Reed.lean) on the published check groups: within capability and on arbitrary words
+                rd = reed_data(ctx)[name]
+                ops.append(Op("defreed %s %s" % (name, "/".join(",".join(str(x) for x in p) for p in rd["parts"])), "ok", nontrivial=False))
+                for (w, m_, wt), o in list(zip(cs, res))[: (600 if ctx.thorough else 150)]:
+                    ops.append(Op("reed %s %s" % (name, bits(w)), o, nontrivial=bool(wt), info={"site": site, "config": dict(cfg, sent=bits(m_), weight=wt)}, prop_ok=(o == bits(m_))))
+                AW = arbitrary_words(ctx, n, 0, 30 if ctx.thorough else 12)
+                for w, o in zip(AW, _dec(fn, AW)):
+                    ops.append(Op("reed %s %s" % (name, bits(w)), o, nontrivial=True, info={"site": site, "config": dict(cfg, arbitrary=True)}))
+                ctx.count("reed_model_lines", min(len(cs), 150) + len(AW))
             if kind == "bm":
                 # the Lean model of the decoder (Kaira/BM.lean): decoded messages line by line, the internals (syndromes, error locator,
                 # error positions) on a sample, and EVERY error pattern of weight <= t on the zero code word (BMProofs.bm_reduction lifts
